@@ -28,12 +28,16 @@ def run(ctx):
 
     dsl.verify(ctx, repo, C.registry(), "C09", C.RPD + ".log_count", C.h_log_count, expect_covers=["top", "inner"], concretise=_concretise)
     dsl.verify(ctx, repo, C.registry(), "C09", C.RPD + ".log_pdf", C.h_log_pdf, expect_covers=["log_pdf"], concretise=_concretise)
+    dsl.verify(ctx, repo, C.sample_registry(), "C09", C.RPD + ".sample", C.h_sample, expect_covers=["sample.top", "sample.inner"], concretise=_concretise)
+    dsl.verify(ctx, repo, dsl.Registry(), "C09", "phyclone.smc.utils.interleave_lists", C.h_interleave, expect_covers=["interleave.ran"], concretise=_concretise)
     ctx.trust(*C.registry().assumed)
-    ctx.trust("uniformity and support of RootPermutationDistribution.sample / interleave_lists: a counting argument over shuffles, not expressible as a "
-              "function postcondition in the engine's subset (list.pop(0) driven by a shuffled sentinel list) - covered by exact enumeration (bounded)")
+    ctx.trust(*C.sample_registry().assumed)
     ctx.assume("A-REAL; lgamma uninterpreted (log n! = lgamma(n+1))")
     ctx.extra["explanation"] = ("Deductive: log_count/log_pdf equal the closed form for the number of compatible orders for any number of top-level clones, "
-                                "children and outliers (loops summarised as big sums, recursion by its own contract). Bounded: brute-force orders and exact "
+                                "children and outliers (loops summarised as big sums, recursion by its own contract). sample(): with a ghost log-density (shuffle = -log n!, "
+                                "interleave = -log multinomial, recursive draws by induction) the draw is the interleaved child orders followed by the shuffled own data, outliers "
+                                "interleaved anywhere, and its log-density equals -log_count for every tree shape; interleave_lists builds the sentinel word with len(lists[i]) copies "
+                                "of i, shuffles it once and pops the fronts in word order. The two counting steps (M-RIFFLE, M-INJ) are trusted. Bounded: brute-force orders and exact "
                                 "enumeration of sample() on every tree with <= 4 (thorough 5) data points.")
     from bounded import orders as BO
 
